@@ -615,6 +615,20 @@ func libCorr(args []string) {
 	dist := map[string]int{}
 	lines := 0
 	emit := func(c lcCase) {
+		// a body that carries BypassOriginValidation / CustomTraceNumbers itself (the needs-opts JSON bodies)
+		// keeps its trace numbers in Batch.build; the option-free C05 view of ServerLib renumbers them:
+		// such stored objects are the subject of the optsdom oracle (lib/optsdom.py), not of this view
+		if f := c.object(p); f != nil {
+			keeps := func(o *ach.ValidateOpts) bool { return o != nil && (o.BypassOriginValidation || o.CustomTraceNumbers) }
+			k := keeps(f.GetValidation())
+			for _, b := range f.Batches {
+				k = k || keeps(ach.VerifBatchValidation(b))
+			}
+			if k {
+				dist["skipped:body-carries-trace-keeping-options"]++
+				return
+			}
+		}
 		if c.op == "balance" {
 			if f := c.object(p); f == nil || !balanceInView(f) || c.opts == 1 {
 				dist["skipped:balance-outside-the-C05-view"]++
